@@ -566,6 +566,86 @@ func (p *Prog) Callees(fn *ssa.Function) []*Edge { return p.callees[fn] }
 // Callers returns the module-internal call edges targeting fn.
 func (p *Prog) Callers(fn *ssa.Function) []*Edge { return p.callers[fn] }
 
+// OnlyCalledWithin reports whether fn is root, or an unexported helper every call of which
+// (transitively, up to a small depth) comes from root: code "inside" root after helper extraction.
+func (p *Prog) OnlyCalledWithin(fn, root *ssa.Function) bool {
+	var rec func(f *ssa.Function, depth int) bool
+	rec = func(f *ssa.Function, depth int) bool {
+		if f == root {
+			return true
+		}
+		if depth > 3 {
+			return false
+		}
+		es := p.callers[f]
+		if len(es) == 0 {
+			return false
+		}
+		for _, e := range es {
+			if e.Kind != "static" || !rec(e.Caller, depth+1) {
+				return false
+			}
+		}
+		return true
+	}
+	return rec(fn, 0)
+}
+
+// OriginsInter is Origins, except that a leaf which is a parameter of a helper with exactly one
+// static call site is replaced by the origins of the argument passed there (small depth).
+func (p *Prog) OriginsInter(v ssa.Value) []Leaf {
+	var rec func(v ssa.Value, depth int) []Leaf
+	rec = func(v ssa.Value, depth int) []Leaf {
+		var out []Leaf
+		for _, l := range Origins(v) {
+			par, isPar := l.V.(*ssa.Parameter)
+			if l.Kind != "param" || !isPar || depth >= 3 {
+				out = append(out, l)
+				continue
+			}
+			es := p.callers[par.Parent()]
+			if len(es) != 1 || es[0].Kind != "static" || es[0].Site == nil {
+				out = append(out, l)
+				continue
+			}
+			idx := -1
+			for i, pp := range par.Parent().Params {
+				if pp == par {
+					idx = i
+				}
+			}
+			args := es[0].Site.Common().Args
+			if idx < 0 || idx >= len(args) {
+				out = append(out, l)
+				continue
+			}
+			for _, l2 := range rec(args[idx], depth+1) {
+				l2.Ops = append(append([]token.Token{}, l.Ops...), l2.Ops...)
+				out = append(out, l2)
+			}
+		}
+		return out
+	}
+	return rec(v, 0)
+}
+
+// FactsAtInter: the branch facts that hold at block b, plus (when b's function is a helper with
+// exactly one static call site) the facts that hold at that call site, transitively.
+func (p *Prog) FactsAtInter(b *ssa.BasicBlock) []Fact {
+	out := FactsAt(b)
+	fn := b.Parent()
+	for depth := 0; depth < 3; depth++ {
+		es := p.callers[fn]
+		if len(es) != 1 || es[0].Kind != "static" || es[0].Site == nil {
+			break
+		}
+		cb := es[0].Site.Block()
+		out = append(out, FactsAt(cb)...)
+		fn = cb.Parent()
+	}
+	return out
+}
+
 // CalleesAt resolves the module-internal callees of one call site.
 func (p *Prog) CalleesAt(site ssa.CallInstruction) []*ssa.Function {
 	var out []*ssa.Function
